@@ -160,7 +160,9 @@ HL_quote == T(<<105, 116, 39, 115, 32, 34, 113, 34, 32, 92>>)                   
 HL_join  == T(<<32, 108, 101, 102, 116, 32, 106, 111, 105, 110, 32, 98, 32, 111, 110, 32>>)     \* " left join b on "
 HL_limit == T(<<108, 105, 109, 105, 116, 32, 49, 59>>)                                          \* "limit 1;"
 HL_with  == T(<<119, 105, 116, 104, 32, 40, 104, 101, 97, 100, 101, 114, 41>>)                  \* "with (header)"
-HostileLits == {HL_kw, HL_order, HL_meta, HL_vars, HL_quote, HL_join, HL_limit, HL_with}
+HL_dollar == T(<<36, 38, 32, 36, 36, 32, 36, 96, 32, 53, 36>>)                                  \* "$& $$ $` 5$"  (String.prototype.replace patterns; ends in $ before the closing quote)
+HL_fmt   == T(<<123, 125, 32, 123, 48, 125, 32, 37, 115, 32, 37, 100, 32, 92, 49>>)            \* "{} {0} %s %d \1"  (format / regex-replacement hazards)
+HostileLits == {HL_kw, HL_order, HL_meta, HL_vars, HL_quote, HL_join, HL_limit, HL_with, HL_dollar, HL_fmt}
 Q_C08 == {[BaseQ EXCEPT !.items = <<E(l), E(Fa(1))>>] : l \in HostileLits}
          \cup {[BaseQ EXCEPT !.items = <<E(<<"cat", Fa(1), l>>)>>, !.where = <<"ne", Fa(2), l>>, !.order = << <<"cat", Fa(2), l>> >>, !.desc = TRUE] : l \in HostileLits}
          \cup {[BaseQ EXCEPT !.items = <<E(Fa(2)), <<"unnest", <<"lits", <<l[2], HL_meta[2]>> >> >> >>, !.hastop = TRUE, !.top = 3] : l \in HostileLits}
